@@ -261,7 +261,7 @@ func registerResolver() {
 	register(&PropSpec{
 		ID: "C16", Pkg: "argmapper",
 		Quick:    []Shard{sh("HarnessC16Conv", "a parameter with an exactly matching option (default / override / duplicate) next to one produced by a converter whose result also carries that key", 0, 0), sh("HarnessC16", "3 symbolic options (Named/NamedSubtype/TypedSubtype with symbolic spellings and subtypes, nil value) split symbolically into defaults, first call, second call", 0, 3, 0, 0), sh("HarnessC16", "2 symbolic options after three fixed base defaults (override, then rely on the default again)", 0, 2, 0, 1), sh("HarnessC16", "2 symbolic options incl. nil option, after base defaults", 0, 2, 1, 1), sh("HarnessC16Perm", "permutations of 3 exact options", 0, 3, 0), sh("HarnessC16Perm", "permutations of 3 exact options + distractor converter", 0, 3, 1), sh("HarnessC16Alias", "two functions whose defaults share one backing slice with spare capacity", 0, 0)},
-		Thorough: []Shard{sh("HarnessC16Conv", "a parameter with an exactly matching option (default / override / duplicate) next to one produced by a converter whose result also carries that key", 0, 0), sh("HarnessC16", "4 symbolic options split symbolically into defaults, first call, second call", 0, 4, 0, 0), sh("HarnessC16", "3 symbolic options after three fixed base defaults", 0, 3, 0, 1), sh("HarnessC16", "3 symbolic options incl. nil option", 0, 3, 1, 0), sh("HarnessC16Perm", "permutations of 4 exact options", 0, 4, 0), sh("HarnessC16Perm", "permutations of 4 exact options + distractor converter", 0, 4, 1)},
+		Thorough: []Shard{sh("HarnessC16Alias", "two functions whose defaults share one backing slice with spare capacity", 0, 0), sh("HarnessC16Conv", "a parameter with an exactly matching option (default / override / duplicate) next to one produced by a converter whose result also carries that key", 0, 0), sh("HarnessC16", "4 symbolic options split symbolically into defaults, first call, second call", 0, 4, 0, 0), sh("HarnessC16", "3 symbolic options after three fixed base defaults", 0, 3, 0, 1), sh("HarnessC16", "3 symbolic options incl. nil option", 0, 3, 1, 0), sh("HarnessC16Perm", "permutations of 4 exact options", 0, 4, 0), sh("HarnessC16Perm", "permutations of 4 exact options + distractor converter", 0, 4, 1)},
 		Covers:   []string{"C16.conv-checked", "C16.call-returned", "C16.values-checked", "C16.default-applies", "C16.call-overrides-or-supplies", "C16.nil-option-checked", "C16.permutation-checked", "C16.second-call-checked", "C16.alias-checked"},
 		Bounds:   []string{"option lists of <=3 (quick) / 4 (thorough) options, each symbolically Named / NamedSubtype (spellings symbolic) / Typed / TypedSubtype / nil value / nil option, split symbolically into construction defaults, the options of a first call and the options of a second call on the same Func; field-name spelling symbolic", "all permutations of 3/4 exactly matching options, with and without a distractor converter"},
 		Outside:  []string{"longer option lists", "non-ASCII names"},
